@@ -3,8 +3,8 @@ package main
 import (
 	"go/token"
 	"go/types"
-	"math/rand"
 	"math"
+	"math/rand"
 	"strconv"
 	"testing"
 	"unicode/utf8"
@@ -145,7 +145,6 @@ func TestBstrRuneCountAgainstStdlib(t *testing.T) {
 		}
 	}
 }
-
 
 // the ConvertFloat32 contract: which float64 values survive FormatFloat -> ParseFloat(.., 32)
 func TestFloat32RangeContract(t *testing.T) {
